@@ -3,6 +3,8 @@ import AwsVerif.Model.LinkedList
 import AwsVerif.Proofs.C09.ALRun
 import AwsVerif.Proofs.C09.LLObs
 import AwsVerif.Proofs.C09.GenBridge
+import AwsVerif.Proofs.C09.ALValid
+import AwsVerif.Proofs.C09.LLValid
 /-!
 C09 — array list and intrusive linked list keep exact sequence contents.
 
@@ -59,6 +61,18 @@ theorem c09_al_front_back (l : AL) (r : RefL) (h : Rel l r) :
 theorem c09_al_init (n isz : Nat) (l : AL) :
     (initDynamic n isz = .ok l → Rel l ⟨[], isz, none⟩) ∧ (initStatic n isz = .ok l → Rel l ⟨[], isz, some n⟩) :=
   ⟨rel_initDynamic, rel_initStatic⟩
+
+/-- **c09_al_valid.**  Every state that refines a reference sequence (hence every state reachable by
+`c09_al_refines_seq`) satisfies the library's own `aws_array_list_is_valid` ("length and capacity
+consistent"); `get_at_ptr` yields the offset `index * item_size` exactly for `index < length`; and
+`init_static_from_initialized` over an array holding `vals` refines `vals`. -/
+theorem c09_al_valid (l : AL) (r : RefL) (h : Rel l r) :
+    isValid l = true ∧
+    (∀ i, getAtPtr l i = if i < r.items.length then .ok (i * r.isz) else .error .invalidIndex) ∧
+    (∀ (vals : List (List UInt8)) (isz : Nat) (l' : AL), (∀ v, v ∈ vals → v.length = isz) →
+      initStaticFromInitialized ((vals.map (fun v => v.map some)).flatten) vals.length isz = .ok l' →
+      Rel l' ⟨vals.map some, isz, some vals.length⟩) :=
+  ⟨rel_isValid h, rel_getAtPtr h, fun _ _ _ hv hi => rel_initFull hv hi⟩
 
 /-- **c09_al_static_bounds.**  Along every run under the API preconditions no operation performs an
 access outside its backing store (`Err.fault` is what every `memcpy/memmove/memset` of the model
@@ -257,6 +271,18 @@ theorem c09_ll_refines_seq (h : Heap) (l : LL) :
    fun _ w => ⟨wl_empty_iff w, ll_front w, ll_back w⟩,
    fun _ _ _ w => ⟨ll_next w, ll_prev w⟩,
    fun _ _ w hs => wl_frame w hs⟩
+
+/-- **c09_ll_valid.**  On a well-linked list the header's own predicates agree with the sequence:
+`aws_linked_list_is_valid` and `aws_linked_list_is_valid_deep` hold, every member is
+`node_is_in_list`, the head has a valid `next` edge and no valid `prev` edge (the tail the converse),
+and a node with both links NULL (fresh, removed, popped — `c09_ll_detached`) is in no list. -/
+theorem c09_ll_valid (h : Heap) (l : LL) (xs : List NodeId) (w : WellLinked h l xs) (fuel : Nat) (hf : xs.length + 2 ≤ fuel) :
+    LinkedList.isValid h l = true ∧ isValidDeep h l fuel = true ∧ (∀ x, x ∈ xs → nodeIsInList h x = true) ∧
+    nodeNextIsValid h l.head = true ∧ nodePrevIsValid h l.head = false ∧
+    nodePrevIsValid h l.tail = true ∧ nodeNextIsValid h l.tail = false ∧
+    (∀ n, h n = ⟨none, none⟩ → nodeIsInList h n = false ∧ nodeNextIsValid h n = false ∧ nodePrevIsValid h n = false) := by
+  obtain ⟨a, b, c, d, e, f, g⟩ := wl_valid w hf
+  exact ⟨a, b, c, d, e, f, g, fun _ hn => detached_not_in_list hn⟩
 
 /-- **c09_ll_mirror.**  For a well-linked list the walk along `next` from `head.next` to `tail`
 yields the sequence and the walk along `prev` from `tail.prev` to `head` yields its reverse (with
